@@ -13,21 +13,34 @@ def tier_of(tier):
     return "thorough" if tier == "thorough" else "quick"
 
 
-def _negate_payloads(path):
+def _negate_payloads(path, new_inodes=False):
     """flip the sign bit of every stored value of a plotfile (the look-alike at the lexical location must differ from the real
-    plotfile in every non-zero cell, whatever the payload kind)"""
+    plotfile in every non-zero cell, whatever the payload kind).  new_inodes: every binary file is written aside and renamed over
+    the old one (as rsync / mv / cp --remove-destination replace a time step), instead of being rewritten in place."""
+    import shutil
     pp = refmodel.ParsedPlot(path)
     for lv in range(pp.nread):
         pl = pp.levels[lv]
         for fname in sorted(set(pl.files)):
             fp = os.path.join(pl.dir, fname)
-            with open(fp, "r+b") as f:
+            target = fp
+            if new_inodes:
+                target = fp + ".incoming"
+                shutil.copyfile(fp, target)
+            with open(target, "r+b") as f:
                 for (off, lo, hi, nc, end) in pp.scan_file(lv, fname):
                     n = int(np.prod([h - l + 1 for l, h in zip(lo, hi)])) * nc
                     f.seek(end - 8 * n)
                     a = np.frombuffer(f.read(8 * n), dtype="<u8") ^ np.uint64(1 << 63)
                     f.seek(end - 8 * n)
                     f.write(a.tobytes())
+            if new_inodes:
+                os.replace(target, fp)
+
+
+def negated(a):
+    """what _negate_payloads leaves of the values `a`"""
+    return (np.ascontiguousarray(a, dtype=np.float64).view(np.uint64) ^ np.uint64(1 << 63)).view(np.float64).reshape(np.shape(a))
 
 
 PATHFORMS_ENABLED = True        # the runner switches it off for checks that spell their paths themselves (PATHFORMS = False)
